@@ -112,6 +112,7 @@ void reb_verif_emit(const struct reb_simulation* const r, const char* event, int
 }
 
 void reb_simulation_step(struct reb_simulation* const r){
+    REB_VERIF(r, "step_b", 3, r->t, r->dt, (double)r->integrator);
     // Update walltime
     struct reb_timeval time_beginning;
     gettimeofday(&time_beginning,NULL);
